@@ -90,27 +90,85 @@ func (a *fnA) computeCanon() {
 	}
 }
 
-// store-to-load forwarding for non-escaping local allocs within one block
-// (go/ssa spills named results to allocs when the function has a defer).
+// store-to-load forwarding for non-escaping local allocs (go/ssa spills named
+// results to allocs when the function has a defer): a load is replaced by the
+// stored value when exactly one store reaches it (reaching definitions over
+// the CFG; calls cannot touch a non-escaping alloc).
 func (a *fnA) computeFwd() {
+	var allocs []*ssa.Alloc
 	for _, b := range a.fn.Blocks {
-		last := map[*ssa.Alloc]ssa.Value{}
 		for _, in := range b.Instrs {
-			switch x := in.(type) {
-			case *ssa.Store:
-				if al, ok := x.Addr.(*ssa.Alloc); ok && a.localOnly(al) {
-					last[al] = x.Val
+			if al, ok := in.(*ssa.Alloc); ok && a.localOnly(al) {
+				allocs = append(allocs, al)
+			}
+		}
+	}
+	type state struct {
+		v        ssa.Value
+		conflict bool
+		set      bool
+	}
+	for _, al := range allocs {
+		out := map[*ssa.BasicBlock]state{}
+		inS := map[*ssa.BasicBlock]state{}
+		lastStore := func(b *ssa.BasicBlock) (ssa.Value, bool) {
+			var v ssa.Value
+			found := false
+			for _, in := range b.Instrs {
+				if st, ok := in.(*ssa.Store); ok && st.Addr == al {
+					v, found = st.Val, true
 				}
-			case *ssa.UnOp:
-				if x.Op == token.MUL {
-					if al, ok := x.X.(*ssa.Alloc); ok {
-						if v, ok := last[al]; ok {
-							a.fwd[x] = v
-						}
+			}
+			return v, found
+		}
+		for iter := 0; iter < 50; iter++ {
+			changed := false
+			for _, b := range a.fn.DomPreorder() {
+				var in state
+				if len(b.Preds) == 0 {
+					in = state{conflict: true, set: true} // initial (zero) value: not tracked
+				}
+				for _, p := range b.Preds {
+					po, ok := out[p]
+					if !ok || !po.set {
+						continue // not yet computed (optimistic)
+					}
+					if !in.set {
+						in = po
+					} else if in.conflict || po.conflict || in.v != po.v {
+						in = state{conflict: true, set: true}
 					}
 				}
-			case *ssa.Call:
-				// a call cannot touch a non-escaping alloc
+				if inS[b] != in {
+					inS[b] = in
+					changed = true
+				}
+				o := in
+				if v, ok := lastStore(b); ok {
+					o = state{v: v, set: true}
+				}
+				if out[b] != o {
+					out[b] = o
+					changed = true
+				}
+			}
+			if !changed {
+				break
+			}
+		}
+		for _, b := range a.fn.Blocks {
+			cur := inS[b]
+			for _, in := range b.Instrs {
+				switch x := in.(type) {
+				case *ssa.Store:
+					if x.Addr == al {
+						cur = state{v: x.Val, set: true}
+					}
+				case *ssa.UnOp:
+					if x.Op == token.MUL && x.X == al && cur.set && !cur.conflict && cur.v != nil {
+						a.fwd[x] = cur.v
+					}
+				}
 			}
 		}
 	}
@@ -295,8 +353,41 @@ func (a *fnA) prove(b *ssa.BasicBlock, extra []Ineq, goal Ineq, ok bool) bool {
 }
 
 // candidate (per-function form): an inequality over this function's terms.
-func newCand(desc string, q Ineq) *candidate {
-	return &candidate{desc: desc, q: q, alive: true}
+func newCand(desc string, build func() (Ineq, bool)) *candidate {
+	c := &candidate{desc: desc, alive: true, build: build}
+	q, ok := build()
+	if !ok {
+		return nil
+	}
+	c.q = q
+	return c
+}
+
+func (a *fnA) rebuildCands() {
+	for _, cs := range a.phiCands {
+		for _, c := range cs {
+			if c.alive {
+				q, ok := c.build()
+				if !ok {
+					c.alive = false
+					continue
+				}
+				c.q = q
+			}
+		}
+	}
+}
+
+func (a *fnA) exactKey() string {
+	n := 0
+	for _, b := range a.fn.Blocks {
+		for _, in := range b.Instrs {
+			if a.exact[in] {
+				n++
+			}
+		}
+	}
+	return fmt.Sprint(n)
 }
 
 // ---------------------------------------------------------------------------
@@ -599,6 +690,14 @@ func (a *fnA) seedPhiCandidates() {
 				if isSliceLike(x.X.Type()) {
 					addSrc(x.X)
 				}
+				for _, v := range []ssa.Value{x.Low, x.High} {
+					if v != nil && isIntLike(v.Type()) && !seenCmp[v] {
+						if _, isC := v.(*ssa.Const); !isC {
+							seenCmp[v] = true
+							cmpVals = append(cmpVals, v)
+						}
+					}
+				}
 			case *ssa.IndexAddr:
 				if isSliceLike(x.X.Type()) {
 					addSrc(x.X)
@@ -636,26 +735,26 @@ func (a *fnA) seedPhiCandidates() {
 			}
 		}
 		for _, phi := range phis {
-			pt := linTerm(a.valTerm(phi))
+			phi := phi
+			pt := func() Lin { return linTerm(a.valTerm(phi)) }
 			var cs []*candidate
-			add := func(desc string, q Ineq, ok bool) {
-				if ok {
-					cs = append(cs, newCand(desc, q))
+			add := func(desc string, build func() (Ineq, bool)) {
+				if c := newCand(desc, build); c != nil {
+					cs = append(cs, c)
 				}
 			}
-			q, ok := geq(pt, linConst(0))
-			add(a.describe(phi)+" >= 0", q, ok)
-			q, ok = geq(pt, linConst(-1))
-			add(a.describe(phi)+" >= -1", q, ok)
+			add(a.describe(phi)+" >= 0", func() (Ineq, bool) { return geq(pt(), linConst(0)) })
+			add(a.describe(phi)+" >= -1", func() (Ineq, bool) { return geq(pt(), linConst(-1)) })
 			for _, s := range lenSrcs {
+				s := s
 				db := defBlock(s)
 				if db != nil && !(db.Dominates(b)) {
 					continue
 				}
-				q, ok := leq(pt, a.lenOf(s))
-				add(fmt.Sprintf("%s <= len(%s)", a.describe(phi), a.describe(s)), q, ok)
+				add(fmt.Sprintf("%s <= len(%s)", a.describe(phi), a.describe(s)), func() (Ineq, bool) { return leq(pt(), a.lenOf(s)) })
 			}
 			for _, v := range cmpVals {
+				v := v
 				if v == ssa.Value(phi) {
 					continue
 				}
@@ -665,19 +764,48 @@ func (a *fnA) seedPhiCandidates() {
 						continue
 					}
 				}
-				lv := a.lin(v)
-				if _, mentions := lv.C[a.valTerm(phi)]; mentions {
+				add(fmt.Sprintf("%s <= %s", a.describe(phi), a.describe(v)), func() (Ineq, bool) {
+					lv := a.lin(v)
+					if _, mentions := lv.C[a.valTerm(phi)]; mentions {
+						return Ineq{}, false
+					}
+					return leq(pt(), lv)
+				})
+			}
+			// join phis: bounds relative to incoming values that dominate the join
+			for _, e := range phi.Edges {
+				e := e
+				if c, isC := e.(*ssa.Const); isC {
+					if k, ok := constBig(c); ok {
+						add(fmt.Sprintf("%s >= %s", a.describe(phi), k), func() (Ineq, bool) { return geq(pt(), linBig(k)) })
+					}
 					continue
 				}
-				q, ok := leq(pt, lv)
-				add(fmt.Sprintf("%s <= %s", a.describe(phi), a.describe(v)), q, ok)
+				db := defBlock(e)
+				if db != nil && (db == b || !db.Dominates(b)) {
+					continue
+				}
+				mk := func(ge bool) func() (Ineq, bool) {
+					return func() (Ineq, bool) {
+						le := a.lin(e)
+						if _, mentions := le.C[a.valTerm(phi)]; mentions {
+							return Ineq{}, false
+						}
+						if ge {
+							return geq(pt(), le)
+						}
+						return leq(pt(), le)
+					}
+				}
+				add(fmt.Sprintf("%s >= %s", a.describe(phi), a.describe(e)), mk(true))
+				add(fmt.Sprintf("%s <= %s", a.describe(phi), a.describe(e)), mk(false))
 			}
 			for _, other := range phis {
+				other := other
 				if other == phi {
 					continue
 				}
-				q, ok := leq(pt, linTerm(a.valTerm(other)))
-				add(fmt.Sprintf("%s <= %s", a.describe(phi), a.describe(other)), q, ok)
+				add(fmt.Sprintf("%s <= %s", a.describe(phi), a.describe(other)), func() (Ineq, bool) { return leq(pt(), linTerm(a.valTerm(other))) })
 			}
 			a.phiCands[phi] = cs
 		}
@@ -729,7 +857,14 @@ func (a *fnA) edgeExtra(pred, succ *ssa.BasicBlock) []Ineq {
 }
 
 func (a *fnA) houdini() {
-	for iter := 0; iter < 40; iter++ {
+	// round 0: establish a first exactness approximation with every candidate
+	// assumed; candidates are only checked once their inequalities have been
+	// rebuilt under that approximation.
+	a.rebuildCands()
+	a.pass()
+	prev := ""
+	for iter := 0; iter < 60; iter++ {
+		a.rebuildCands()
 		a.pass()
 		killed := false
 		for _, b := range a.fn.Blocks {
@@ -756,9 +891,11 @@ func (a *fnA) houdini() {
 				}
 			}
 		}
-		if !killed {
+		k := a.exactKey()
+		if !killed && k == prev {
 			return
 		}
+		prev = k
 	}
 }
 
